@@ -97,6 +97,7 @@ fn directed_asts() -> Vec<(RangeAst, Spelling)> {
     add(vec![Alt::Set(vec![Tok::Cmp(Op::Bare, p1(1)), Tok::Garbage("-".into()), Tok::Garbage("2foo".into())])]);
     add(vec![Alt::Set(vec![Tok::Cmp(Op::Bare, p3(1, 2, 3)), Tok::Garbage("-".into()), Tok::Garbage("2.3.4.5".into())])]);
     add(vec![Alt::Set(vec![Tok::Cmp(Op::Bare, p1(1)), Tok::Garbage("-".into())])]);
+    add(vec![Alt::Set(vec![Tok::Cmp(Op::Bare, p1(1)), Tok::Garbage("-".into()), Tok::Garbage("2|x".into())])]);
     // every garbage token next to a valid comparator, both orders, and alone in an alternative
     for g in GARBAGE {
         add(vec![Alt::Set(vec![Tok::Garbage(g.to_string()), Tok::Cmp(Op::Ge, p3(1, 2, 3))])]);
